@@ -101,7 +101,8 @@ def machine : Machine Unit Unit where
         let okShape := match r with
           | .ok p => tb == toBytes p && b58 == (toBase58 p).map (·.toNat)
           | .error _ => true
-        ((), if !specFromBytes bs r then "FAIL:from_bytes_accepts_exactly"
+        ((), if isOverlong bs r then "FAIL:overlong_varint_accepted"
+             else if !specFromBytes bs r then "FAIL:from_bytes_accepts_exactly"
              else if !okShape then "FAIL:to_bytes_or_base58_shape" else "ok")
       | _, _ => ((), "FAIL:unparsable")
     | ["fromstr", h] =>
@@ -112,7 +113,8 @@ def machine : Machine Unit Unit where
         | some bs =>
           ((), match r with
             | .error .b58 => "FAIL:valid_base58_rejected"
-            | _ => if specFromBytes bs r then "ok" else "FAIL:from_str_accepts_exactly")
+            | _ => if isOverlong bs r then "FAIL:overlong_varint_accepted"
+                   else if specFromBytes bs r then "ok" else "FAIL:from_str_accepts_exactly")
       | _, _ => ((), "FAIL:unparsable")
     | ["pubkey", ty, d, sha] =>
       match ty.toNat?, unhex d, unhex sha, outs with
